@@ -64,7 +64,7 @@ def DSt.ensure (st : DSt) : DSt :=
   if st.heap.insts.isEmpty then { st with heap := st.heap.construct none, cur := 0 } else st
 /-- `Chaperone(strategies=<a list written in place>)`: "none" = None, otherwise a fresh list object nobody else holds -/
 def DSt.createFresh (st : DSt) (c : String) (strs : List Strategy) : DSt :=
-  if c = "none" then { st with heap := st.heap.construct none, cur := st.heap.insts.length }
+  if c = "none" || c = "omit" then { st with heap := st.heap.construct none, cur := st.heap.insts.length }
   else { st with heap := (st.heap.newList strs).construct (some st.heap.cells.length), cur := st.heap.insts.length }
 /-- the extraction / repair tables the addressed instance sees (the shipped ones unless overridden) -/
 def DSt.curTables (st : DSt) : List Nat × List Nat :=
@@ -200,9 +200,10 @@ def stratOf (c : Char) : Option Strategy :=
   match c with
   | 's' => some .strict | 'e' => some .extraction | 'l' => some .lenient | 'r' => some .repair | _ => none
 
-/-- "none" and "-" are Python's `None` and `[]`; otherwise one letter per strategy -/
+/-- "none" and "-" are Python's `None` and `[]`, "omit" = the argument is not passed (its default is `None`); otherwise
+    one letter per strategy -/
 def stratsOf (s : String) : List Strategy :=
-  if s = "none" || s = "-" then [] else s.toList.filterMap stratOf
+  if s = "none" || s = "-" || s = "omit" then [] else s.toList.filterMap stratOf
 
 def tuneOf (s : String) : Option Tune :=
   match s.splitOn ":" with
